@@ -47,7 +47,7 @@ def run_fixed(cases, oracle=True):
 
 
 OPCLASS = {'new': 'create', 'set': 'update', 'setmany': 'update', 'add': 'collection', 'remove': 'collection', 'assign': 'collection', 'del': 'delete',
-           'flush': 'txn', 'commit': 'txn', 'rollback': 'txn', 'newsession': 'txn', 'final': 'txn'}      # everything else: 'read'
+           'flush': 'txn', 'flushobj': 'txn', 'commit': 'txn', 'rollback': 'txn', 'newsession': 'txn', 'final': 'txn'}      # everything else: 'read'
 # An operation that RAISES and leaves the cache inconsistent is one root cause (missing / partial undo) with an unbounded family of symptoms
 # (which index entry, which side of which relationship, which exception class): keyed by a coarse symptom class per property.
 RAISED_CLASS = {'c11-index-stale': 'c11-index', 'c11-index-missing': 'c11-index',
@@ -180,7 +180,7 @@ def search(ctx, deep, prop, n_quick=150, n_deep=6000):
     hs, _ = gen_histories(seeds_for(ctx, prop, n, 1), jobs=4)
     hs2, _ = gen_histories(seeds_for(ctx, prop, n, 2), jobs=4, stage=2)
     n_stage1 = len(hs)
-    hs = hs + hs2 + run_fixed(load_corpus(prop, stage=2))
+    hs = hs + hs2 + run_fixed(load_corpus(prop, stage=2) + load_corpus(prop, stage=1))      # the fixed histories are judged by the oracles too
     failures, seen, nontrivial = [], {}, set()
     dist = {'histories': len(hs), 'stage1_histories': n_stage1, 'stage2_histories': len(hs) - n_stage1, 'violating_histories': 0,
             'keys': collections.Counter(), 'ops': 0}
